@@ -8,6 +8,7 @@ struct Case {
   SrcFamily fam;
   int merge = 1;     // 0 none, 1 concat, 2 concat failing at call #fail_at
   int fail_at = 1;
+  int fail_style = 0;  // 0: callback stores NULL; 1: callback returns without storing a value
   int dupsort = 0;   // 0 none, 1 bytewise on the value, 2 reverse bytewise
   int path = 0;      // 0 iterate, 1 mtbl_source_write into a writer and read back, 2 mtbl_merge tool
   bool valid() const {
@@ -23,7 +24,7 @@ struct Case {
   std::string ser() const {
     Out o;
     o << "property C04\n";
-    o << "opts merge=" << merge << " fail_at=" << fail_at << " dupsort=" << dupsort << " path=" << path << "\n";
+    o << "opts merge=" << merge << " fail_at=" << fail_at << " fail_style=" << fail_style << " dupsort=" << dupsort << " path=" << path << "\n";
     fam.ser(o);
     return o.str();
   }
@@ -38,6 +39,7 @@ struct Case {
           int v = atoi(row[i].c_str() + e + 1);
           if (k == "merge") c.merge = v;
           else if (k == "fail_at") c.fail_at = v;
+          else if (k == "fail_style") c.fail_style = v & 1;
           else if (k == "dupsort") c.dupsort = v;
           else if (k == "path") c.path = v;
         }
@@ -68,6 +70,7 @@ static Case gen_case() {
     long long tot = 0;
     for (auto &kv : c.fam.occurrences()) tot += kv.second - 1;
     c.fail_at = pick(1, (int)std::max<long long>(1, tot + 1));
+    c.fail_style = chance(50);
   }
   return c;
 }
@@ -85,7 +88,10 @@ static Result run_case(const Case &c) {
       if (s.keys.empty()) empty_src = true;
 
     MergeClos mc;
-    if (c.merge == 2) mc.fail_at = c.fail_at;
+    if (c.merge == 2) {
+      mc.fail_at = c.fail_at;
+      mc.fail_style = c.fail_style;
+    }
     KVs got;
     bool failed_at_end = false;  // iteration ended by a failing next (always true at the natural end as well)
     if (c.path == 2) {
@@ -233,7 +239,19 @@ static Result run_case(const Case &c) {
             }
           }
         }
-        if (expect_fail) r.tag("merge_callback_failed");
+        if (expect_fail) {
+          r.tag("merge_callback_failed");
+          if (c.fail_style) r.tag("merge_callback_failed_without_storing");
+          long long cum = 0;
+          for (auto &kv : model.e) {
+            long long before = cum;
+            cum += occ[kv.first] - 1;
+            if (cum >= c.fail_at) {
+              if (c.fail_at - before >= 2) r.tag("merge_callback_failed_on_later_fold_of_a_key");
+              break;
+            }
+          }
+        }
       }
     }
     r.nontrivial = max_occ >= 2 || empty_src || empty_key;
